@@ -4,6 +4,7 @@ package wsrpc
 // goroutines and pending records over many reconnects and many failed calls on real sockets.
 
 import (
+	"os"
 	"context"
 	"crypto/ed25519"
 	"fmt"
@@ -39,6 +40,21 @@ func vCensus() map[string]int {
 		}
 	}
 	return res
+}
+
+// vSocketFDs counts the open socket descriptors of this process
+func vSocketFDs() int {
+	ents, err := os.ReadDir("/proc/self/fd")
+	if err != nil {
+		return -1
+	}
+	n := 0
+	for _, e := range ents {
+		if l, err := os.Readlink("/proc/self/fd/" + e.Name()); err == nil && strings.HasPrefix(l, "socket:") {
+			n++
+		}
+	}
+	return n
 }
 
 func vCensusTotal(c map[string]int) int {
